@@ -26,6 +26,7 @@ import RtrProofs.MgrCb
 import RtrProofs.MgrStep
 import RtrProofs.MgrProps
 import RtrProofs.MgrFail
+import RtrProofs.MgrLen
 
 namespace Rtr.C15
 
@@ -62,31 +63,111 @@ example : init [] = none ∧ init [(5, 1), (3, 0)] = none ∧ init [(5, 1), (3, 
     (init [(5, 2), (3, 1), (9, 1)]).map prefs = some [3, 5, 9] := by decide
 
 /-- `rtr_mgr_add_group` refuses (RTR_INVALID_PARAM, nothing changes, nothing is started) a
-    preference value that is in use, and accepts every other one. -/
-theorem add_rejects_dup (gs : List Group) (p n : Nat) :
-    ((∃ g ∈ gs, g.pref = p) → add gs p n = (gs, [], -2)) ∧
-    ((∀ g ∈ gs, g.pref ≠ p) → (add gs p n).2.2 = 0 ∧ (prefs (add gs p n).1).Perm (p :: prefs gs)) := by
+    preference value that is in use, and accepts every other one — provided the call is not refused
+    for one of the two other reasons an add can fail for (`failed_add_changes_nothing`): the
+    intervals copied from the existing groups' sockets pass `rtr_init`'s range check and no
+    allocation is refused. -/
+theorem add_rejects_dup (gs : List Group) (p n k : Nat) :
+    ((∃ g ∈ gs, g.pref = p) → add gs p n k = (gs, [], -2)) ∧
+    ((∀ g ∈ gs, g.pref ≠ p) → ivsOk (pickIvs defaultIvs gs) = true → k ≠ 1 → k ≠ 2 →
+      (add gs p n k).2.2 = 0 ∧ (prefs (add gs p n k).1).Perm (p :: prefs gs)) := by
   constructor
   · rintro ⟨g, hg, hp⟩
-    unfold add
-    rw [if_pos (List.any_eq_true.mpr ⟨g, hg, by simpa using hp⟩)]
-  · intro h
+    apply add_refused
+    unfold addRefusal
+    rw [if_pos (any_pref_iff.mpr ⟨g, hg, hp⟩)]
+  · intro h hiv hk1 hk2
     have hany : ¬ (gs.any (fun g => g.pref == p) = true) := by
       intro hc
-      obtain ⟨g, hg, hp⟩ := List.any_eq_true.mp hc
-      exact h g hg (by simpa using hp)
-    unfold add
-    rw [if_neg hany]
+      obtain ⟨g, hg, hp⟩ := any_pref_iff.mp hc
+      exact h g hg hp
+    have hnone : addRefusal gs p k = none := (addRefusal_none_iff gs p k).mpr ⟨hany, hk1, hiv, hk2⟩
+    rw [add_accepted hnone n]
     refine ⟨rfl, ?_⟩
     simp only
     rw [startFirstIfClosed_prefs]
     refine (prefs_perm (sortG_perm _)).trans ?_
-    have : prefs (gs ++ [mkGroup p n]) = prefs gs ++ [p] := by simp [prefs, mkGroup]
+    have : prefs (gs ++ [mkGroupIv p n (pickIvs defaultIvs gs)]) = prefs gs ++ [p] := by simp [prefs, mkGroupIv]
     rw [this]
     exact List.perm_append_singleton p (prefs gs)
 
 example : add [mkGroup 3 1, mkGroup 5 2] 5 1 = ([mkGroup 3 1, mkGroup 5 2], [], -2) ∧
     prefs (add [mkGroup 3 1, mkGroup 5 2] 4 1).1 = [3, 4, 5] := by decide
+
+/-- A failing `rtr_mgr_add_group` changes nothing and starts nothing, whatever the reason:
+    the call fails exactly when the preference is in use, or the allocation of the group is refused
+    (`k = 1`), or the intervals it copies from `sockets[0]` of the existing groups (cache-controlled
+    in RTR_INTERVAL_MODE_ACCEPT_ANY) are rejected by `rtr_init`, or the allocation of the list node
+    is refused (`k = 2`); for a fresh preference and rejected intervals the return code is
+    RTR_INVALID_PARAM.  The new group's sockets get the copied intervals when the add succeeds. -/
+theorem failed_add_changes_nothing (gs : List Group) (p n k : Nat) :
+    ((add gs p n k).2.2 ≠ 0 → (add gs p n k).1 = gs ∧ (add gs p n k).2.1 = []) ∧
+    ((add gs p n k).2.2 ≠ 0 ↔
+      ((∃ g ∈ gs, g.pref = p) ∨ k = 1 ∨ ivsOk (pickIvs defaultIvs gs) = false ∨ k = 2)) ∧
+    ((∀ g ∈ gs, g.pref ≠ p) → ivsOk (pickIvs defaultIvs gs) = false → k ≠ 1 → add gs p n k = (gs, [], -2)) ∧
+    ((add gs p n k).2.2 = 0 → ∃ g' ∈ (add gs p n k).1, g'.pref = p ∧ g'.ivs = pickIvs defaultIvs gs ∧
+      ivsOk g'.ivs = true) := by
+  refine ⟨?_, ?_, ?_, ?_⟩
+  · intro hrc
+    rcases add_cases gs p n k with ⟨rc, _, h⟩ | ⟨_, _, h⟩
+    · rw [h]; exact ⟨rfl, rfl⟩
+    · rw [h] at hrc; exact absurd rfl hrc
+  · rw [Ne, add_rc_zero_iff, addRefusal_none_iff]
+    constructor
+    · intro h
+      by_cases h1 : gs.any (fun g => g.pref == p) = true
+      · exact Or.inl (any_pref_iff.mp h1)
+      · by_cases h2 : k = 1
+        · exact Or.inr (Or.inl h2)
+        · by_cases h4 : k = 2
+          · exact Or.inr (Or.inr (Or.inr h4))
+          · cases h3 : ivsOk (pickIvs defaultIvs gs) with
+            | false => exact Or.inr (Or.inr (Or.inl rfl))
+            | true => exact absurd ⟨h1, h2, h3, h4⟩ h
+    · rintro (h | h | h | h) ⟨h1, h2, h3, h4⟩
+      · exact h1 (any_pref_iff.mpr h)
+      · exact h2 h
+      · rw [h] at h3; cases h3
+      · exact h4 h
+  · intro hfresh hiv hk
+    apply add_refused
+    have hany : ¬ (gs.any (fun g => g.pref == p) = true) := by
+      intro hc
+      obtain ⟨g, hg, hp⟩ := any_pref_iff.mp hc
+      exact hfresh g hg hp
+    unfold addRefusal
+    rw [if_neg hany, if_neg hk, if_pos hiv]
+  · intro hrc
+    have hnone := (add_rc_zero_iff gs p n k).mp hrc
+    have hiv := ((addRefusal_none_iff gs p k).mp hnone).2.2.1
+    rw [add_accepted hnone n]
+    have hm : mkGroupIv p n (pickIvs defaultIvs gs) ∈ sortG (gs ++ [mkGroupIv p n (pickIvs defaultIvs gs)]) :=
+      mem_sortG.mpr (List.mem_append_right _ List.mem_cons_self)
+    cases hl : sortG (gs ++ [mkGroupIv p n (pickIvs defaultIvs gs)]) with
+    | nil => rw [hl] at hm; cases hm
+    | cons b t =>
+      rw [hl] at hm
+      simp only [startFirstIfClosed]
+      rcases List.mem_cons.mp hm with hb | ht
+      · subst hb
+        split
+        · exact ⟨_, List.mem_cons_self, by simp [Group.startSockets, mkGroupIv], by simp [Group.startSockets, mkGroupIv], by
+            simpa [Group.startSockets, mkGroupIv] using hiv⟩
+        · exact ⟨_, List.mem_cons_self, rfl, rfl, hiv⟩
+      · split
+        · exact ⟨_, List.mem_cons_of_mem _ ht, rfl, rfl, hiv⟩
+        · exact ⟨_, List.mem_cons_of_mem _ ht, rfl, rfl, hiv⟩
+
+/-- an End of Data with refresh 200000 (> RTR_REFRESH_MAX) on group 3's first socket makes the next
+    add fail with RTR_INVALID_PARAM and no effect; with refresh 0 ("not set") the defaults are used
+    and the add succeeds; an add with a refused allocation fails with RTR_ERROR -/
+example :
+    (init [(3, 1)]).map (fun gs => step (run gs [.setiv 3 200000 7200 600]) (.add 5 1))
+      = (init [(3, 1)]).map (fun gs => (run gs [.setiv 3 200000 7200 600], [], -2)) ∧
+    (init [(3, 1)]).map (fun gs => (step (run gs [.setiv 3 0 7200 600]) (.add 5 1)).2.2) = some 0 ∧
+    (init [(3, 1)]).map (fun gs => step gs (.add 5 1 1)) = (init [(3, 1)]).map (fun gs => (gs, [], -1)) ∧
+    (init [(3, 1)]).map (fun gs => step gs (.add 5 1 2)) = (init [(3, 1)]).map (fun gs => (gs, [], -1)) := by
+  decide
 
 /-- the last remaining group cannot be removed (RTR_ERROR, nothing changes), and no reachable
     configuration is empty -/
@@ -102,6 +183,48 @@ theorem last_group_kept :
 
 example : remove [mkGroup 3 1] 3 = ([mkGroup 3 1], [], -1) ∧ prefs (remove [mkGroup 3 1, mkGroup 5 1] 3).1 = [5] := by
   decide
+
+/-- The same over histories, *including* adds that fail for any reason and cache-controlled interval
+    changes: after every history of socket events, add_group calls (accepted, duplicate, refused
+    allocation, intervals rejected by `rtr_init`), `setiv`, remove_group, start and stop
+      * at least one group is left,
+      * if exactly one is left, every further `remove_group` returns RTR_ERROR without any effect —
+        so the history extended by it ends in the same configuration,
+      * `rtr_mgr_get_first_group` has a group to return. -/
+theorem last_group_never_removed {specs : List (Nat × Nat)} {gs0 : List Group} (h : init specs = some gs0)
+    (ops : List Op) :
+    run gs0 ops ≠ [] ∧
+    (∀ p, (run gs0 ops).length = 1 →
+      step (run gs0 ops) (.remove p) = (run gs0 ops, [], -1) ∧ run gs0 (ops ++ [.remove p]) = run gs0 ops) ∧
+    (firstGroup (run gs0 ops)).isSome = true := by
+  have hne := (reachable_run (Reachable.init h) ops).inv.2
+  refine ⟨hne, ?_, ?_⟩
+  · intro p hl
+    have hr : step (run gs0 ops) (.remove p) = (run gs0 ops, [], -1) := last_group_kept.1 _ p hl
+    refine ⟨hr, ?_⟩
+    rw [run_append]
+    simp only [run, hr]
+  · cases hl : run gs0 ops with
+    | nil => exact absurd hl hne
+    | cons b t => rfl
+
+/-- `rtr_mgr_remove_group` guards the last group by the counter `config->len`; the counter as the C
+    code is meant to maintain it (`len++` on a successful add, `len--` on a successful remove,
+    nothing else — in particular not on a failed add) equals the length of the group list after
+    every operation, so the guard `len == 1` and "one group is left" are the same test. -/
+theorem len_bookkeeping (gs : List Group) (o : Op) :
+    (step gs o).1.length = lenAfter gs.length o (step gs o).2.2 := step_length gs o
+
+/-- End of Data with an out-of-range refresh interval (ACCEPT_ANY) on the least preferable group (the
+    last one in list order is the one whose non-zero intervals `rtr_mgr_add_group` ends up with);
+    one add with a fresh preference succeeds before, two adds fail after it (RTR_INVALID_PARAM from
+    `rtr_init`, nothing changes); the removals go down to one group and the next removal — of the
+    last group — is refused, twice; the group is still there. -/
+example :
+    (init [(3, 1), (5, 1)]).map (fun gs =>
+      let ops := [Op.start, .add 7 1, .setiv 7 200000 7200 600, .add 9 1, .add 11 2, .remove 5, .remove 3]
+      (prefs (run gs ops), (step (run gs ops) (.add 9 1)).2.2, step (run gs ops) (.remove 7) == (run gs ops, [], -1),
+       prefs (run gs (ops ++ [.remove 7, .remove 7])))) = some ([7], -2, true, [7]) := by decide
 
 /-- after every operation of every history the group list is in strictly ascending preference
     order; `rtr_mgr_get_first_group` is the group with the smallest preference value and
@@ -197,7 +320,7 @@ theorem never_closed_for_worse {gs : List Group} (hr : Reachable gs) :
     (∀ p i st sy gs' l, event gs p i st sy = some (gs', l) → ∀ q j, Ev.stop q j ∈ l →
       p < q ∧ st = .established ∧ (∀ g ∈ gs, g.pref = p → g.status ≠ .established) ∧
       (∀ g' ∈ gs', g'.pref = p → g'.status = .established ∧ g'.isSynced = true)) ∧
-    (∀ p n q j, Ev.stop q j ∉ (add gs p n).2.1) ∧
+    (∀ p n k q j, Ev.stop q j ∉ (add gs p n k).2.1) ∧
     (∀ q j, Ev.stop q j ∉ (start gs).2.1) ∧
     (∀ p q j, Ev.stop q j ∈ (remove gs p).2.1 → q = p) := by
   have hs := hr.inv.1
@@ -222,7 +345,7 @@ theorem never_closed_for_worse {gs : List Group} (hr : Reachable gs) :
         g0 hg0 (by rw [hg0p, evGroup_pref]; exact hgm.2.symm)
       subst this
       exact ⟨rfl, hsync⟩
-  · intro p n q j hl
+  · intro p n k q j hl
     obtain ⟨_, _, _, he⟩ := add_log hl
     cases he
   · intro q j hl
